@@ -197,7 +197,7 @@ func (t *trSys) kill(addr string) {
 			return false
 		}
 		for _, c := range t.n.conns {
-			if c.addr == addr && !c.end.p.closed[1] && !c.end.p.closed[0] {
+			if c.addr == addr && !c.end.p.closed[1] && !c.end.p.closed[0] && !c.end.p.dead {
 				return false
 			}
 		}
@@ -226,7 +226,7 @@ func (t *trSys) advance(d time.Duration, what string) {
 			step = d
 		}
 		vt.Advance(step)
-		vs.Quiesce()
+		t.settle()
 		t.checkLimits("after a tick")
 		d -= step
 	}
@@ -324,10 +324,11 @@ const (
 	evCloseIdle
 	evKillA
 	evRestartA
+	evCloseStream
 	nTrEvents
 )
 
-var trEvNames = []string{"call(a)", "call(b)", "ping(a)", "go(a)", "long(a)", "stream(a)", "release", "tick", ">keepalive", ">idle", "closeidle", "kill(a)", "restart(a)"}
+var trEvNames = []string{"call(a)", "call(b)", "ping(a)", "go(a)", "long(a)", "stream(a)", "release", "tick", ">keepalive", ">idle", "closeidle", "kill(a)", "restart(a)", "closestream"}
 
 func (t *trSys) do(ev int) {
 	switch ev {
@@ -363,6 +364,12 @@ func (t *trSys) do(ev int) {
 		t.kill("a")
 	case evRestartA:
 		t.restart("a")
+	case evCloseStream:
+		if n := len(t.streams); n > 0 {
+			err := t.streams[n-1].st.Close()
+			t.streams = t.streams[:n-1]
+			t.log = append(t.log, "closestream="+errStr(err))
+		}
 	}
 	t.settle()
 	t.checkLimits("after " + trEvNames[ev])
@@ -463,6 +470,11 @@ func trConcBody(prop string, limits [][2]int) func(x *X) {
 		}
 		t.finish(false)
 		t.shutdown()
+		for _, a := range []string{"a", "b"} {
+			if t.n.live[a] != 0 {
+				x.Fail("C15/close-leaves-connections", "%d connections to %q are still open after Transport.Close (racing first callers, limits %v)", t.n.live[a], a, lim)
+			}
+		}
 		x.Outcome("lim=%v pre=%d maxlive=%d dials=%d", lim, pre, t.n.maxLive["a"], t.n.dials["a"])
 	}
 }
@@ -471,10 +483,12 @@ func init() {
 	all := []int{evCallA, evCallB, evPingA, evGoA, evLongA, evStreamA, evRelease, evTick, evPastKeepAlive, evPastIdle, evCloseIdle, evKillA, evRestartA}
 	c13ab := []int{evCallA, evCallB, evLongA, evStreamA, evTick, evPastKeepAlive, evCloseIdle, evKillA, evRestartA}
 	c14ab := []int{evCallA, evCallB, evPingA, evGoA, evTick, evPastKeepAlive, evPastIdle, evKillA, evRestartA}
-	c15ab := []int{evCallA, evLongA, evStreamA, evTick, evPastKeepAlive, evPastIdle, evCloseIdle}
+	c15ab := []int{evCallA, evLongA, evStreamA, evCloseStream, evTick, evPastKeepAlive, evPastIdle, evCloseIdle}
 	_ = all
 	register(&Scenario{Prop: "C13", Name: "c13/seq-L4", Quick: []Bound{{0, 0}}, Thorough: []Bound{{1, 0}}, Body: trSeqBody("C13", 4, c13ab, trLimits), MaxSteps: 200000})
 	register(&Scenario{Prop: "C13", Name: "c13/concurrent", Quick: []Bound{{1, 0}}, Thorough: []Bound{{2, 0}}, BudgetT: 400, Body: trConcBody("C13", trLimits), MaxSteps: 200000})
+	c13k := []int{evCallA, evTick, evPastKeepAlive, evGoA}
+	register(&Scenario{Prop: "C13", Name: "c13/slow-housekeeping-L3", Quick: []Bound{{1, 0}}, Thorough: []Bound{{2, 0}}, Body: trSeqBodyK("C13", true, 3, c13k, trLimits[:3], evCallA), MaxSteps: 200000, BudgetQ: 25})
 	register(&Scenario{Prop: "C14", Name: "c14/seq-L4", Quick: []Bound{{0, 0}}, Thorough: []Bound{{1, 0}}, Body: trSeqBody("C14", 4, c14ab, trLimits[:3]), MaxSteps: 200000})
 	rec := []int{evCallA, evGoA, evTick, evPastKeepAlive, evPastIdle, evRestartA, evKillA}
 	register(&Scenario{Prop: "C14", Name: "c14/recovery-L4", Quick: []Bound{{0, 0}}, Thorough: []Bound{{1, 0}}, Body: trSeqBody("C14", 4, rec, trLimits[:3], evCallA, evKillA), MaxSteps: 200000})
@@ -489,7 +503,12 @@ func init() {
 	register(&Scenario{Prop: "C14", Name: "c14/late-return-L4", Quick: []Bound{}, Thorough: []Bound{{1, 0}}, Body: trSeqBodyK("C14", true, 4, late, trLimits[:2], evLongA, evKillA), MaxSteps: 200000, BudgetT: 300})
 	register(&Scenario{Prop: "C14", Name: "c14/concurrent", Quick: []Bound{{1, 0}}, Thorough: []Bound{{2, 0}}, Body: trConcBody("C14", trLimits[:3]), MaxSteps: 200000})
 	c20ab := []int{evCallA, evCallB, evGoA, evLongA, evStreamA, evTick, evPastKeepAlive, evCloseIdle, evKillA, evRestartA}
-	register(&Scenario{Prop: "C20", Name: "c20/transport-histories-L3", Quick: []Bound{{0, 0}}, Thorough: []Bound{{1, 0}}, Body: trSeqBody("C20", 3, c20ab, [][2]int{{2, 2}, {3, 2}, {1, 1}}), MaxSteps: 200000, OnlyKeys: []string{"C20/", "panic/", "livelock/"}})
+	register(&Scenario{Prop: "C20", Name: "c20/transport-histories-L3", Quick: []Bound{{0, 0}}, Thorough: []Bound{{1, 0}}, Body: trSeqBody("C20", 3, c20ab, [][2]int{{2, 2}, {2, 1}, {3, 2}, {1, 1}}), MaxSteps: 200000, OnlyKeys: []string{"C20/", "panic/", "livelock/"}})
 	register(&Scenario{Prop: "C20", Name: "c20/transport-histories-L4", Quick: []Bound{}, Thorough: []Bound{{0, 0}}, Body: trSeqBody("C20", 4, c20ab, [][2]int{{2, 2}, {3, 2}}), MaxSteps: 200000, OnlyKeys: []string{"C20/", "panic/", "livelock/"}, BudgetT: 300})
+	// a stream opened and closed earlier in the life of the connection, then busy / idle periods
+	c15s := []int{evCallA, evLongA, evStreamA, evCloseStream, evTick, evPastKeepAlive, evCloseIdle}
+	register(&Scenario{Prop: "C15", Name: "c15/after-stream-L3", Quick: []Bound{{0, 0}}, Thorough: []Bound{{1, 0}}, Body: trSeqBody("C15", 3, c15s, trLimits[:2], evStreamA, evCloseStream), MaxSteps: 200000})
+	// two first callers racing for an address: nothing may be left open after Close (C15) / limits hold (C13)
+	register(&Scenario{Prop: "C15", Name: "c15/concurrent-first-callers", Quick: []Bound{{1, 0}}, Thorough: []Bound{{2, 0}}, Body: trConcBody("C15", trLimits[:3]), MaxSteps: 200000, BudgetQ: 25})
 	register(&Scenario{Prop: "C15", Name: "c15/seq-L4", Quick: []Bound{{0, 0}}, Thorough: []Bound{{1, 0}}, Body: trSeqBody("C15", 4, c15ab, trLimits[:3]), MaxSteps: 200000})
 }
